@@ -57,7 +57,7 @@ func (c *Ctx) encIface() *types.Named {
 }
 
 func isEncNil(a *Atom) bool {
-	return strings.HasPrefix(a.Key, "nil:field:") && strings.HasSuffix(a.Key, ".enc") || a.Key == "nil:other"
+	return strings.HasPrefix(a.Key, "nil:field:") || a.Key == "nil:other"
 }
 
 // liveSources walks a value back through live phi edges and reports the leaves.
@@ -579,7 +579,7 @@ func ruleC17_5(c *Ctx) {
 	okWire := false
 	instrsOf(opt, func(in ssa.Instruction) {
 		if st, ok := in.(*ssa.Store); ok {
-			if fa, ok := st.Addr.(*ssa.FieldAddr); ok && fieldName(fa.X.Type(), fa.Field) == "enc" {
+			if fa, ok := st.Addr.(*ssa.FieldAddr); ok && isNamed(derefType(fa.Type()), c.encIface()) {
 				if c.An.dependsOnCall(st.Val, func(x *ssa.Call) bool { return x.Call.StaticCallee() == ctor }) {
 					okWire = true
 				}
@@ -643,7 +643,7 @@ func ruleC17_6(c *Ctx) {
 	// Open: the function that applies options in a loop
 	var open *ssa.Function
 	for _, fn := range c.fsBackendFuncs() {
-		if fn.Parent() == nil && callsWhere(fn, func(cc *ssa.CallCommon) bool { return cc.IsInvoke() && cc.Method.Name() == "apply" }) {
+		if fn.Parent() == nil && callsWhere(fn, isOptionApply) {
 			open = fn
 		}
 	}
@@ -654,7 +654,7 @@ func ruleC17_6(c *Ctx) {
 	}
 	var applyErr ssa.Value
 	instrsOf(open, func(in ssa.Instruction) {
-		if call, ok := in.(*ssa.Call); ok && call.Call.IsInvoke() && call.Call.Method.Name() == "apply" {
+		if call, ok := in.(*ssa.Call); ok && isOptionApply(&call.Call) {
 			applyErr = call
 		}
 	})
@@ -684,4 +684,21 @@ func ruleC17_6(c *Ctx) {
 	} else {
 		c.Fail("C17.6", "open-aborts", desc, c.P.ShortName(open)+": the error of an option is not returned with a nil cache; encryption could be silently disabled")
 	}
+}
+
+// isOptionApply: an interface call of an option's single method: func(*T) error with T a struct of the backend package.
+func isOptionApply(cc *ssa.CallCommon) bool {
+	if cc == nil || !cc.IsInvoke() {
+		return false
+	}
+	sig, ok := cc.Method.Type().(*types.Signature)
+	if !ok || sig.Params().Len() != 1 || sig.Results().Len() != 1 || !isErrorType(sig.Results().At(0).Type()) {
+		return false
+	}
+	pt, ok := sig.Params().At(0).Type().(*types.Pointer)
+	if !ok {
+		return false
+	}
+	_, isStruct := pt.Elem().Underlying().(*types.Struct)
+	return isStruct
 }
